@@ -816,6 +816,16 @@ def _apply_bound(E, c, st, env, module, where):
             hv = c.options.get('on_raise_modifies')
             if hv:
                 _havoc_paths(E, r, hv)
+            # the callee's exceptional postconditions (proved in its own unit) hold in the state it raises in
+            orc = list(c.on_raise.get(ename, [])) + list(c.on_raise.get('*', []))
+            if isinstance(c.on_raise.get(ename), str):
+                orc = [c.on_raise[ename]] + list(c.on_raise.get('*', []))
+            if orc:
+                saved_r = r.snap
+                r.snap = pre
+                for cl in orc:
+                    r.assume(_as_z3(eval_clause(E, cl, r)))
+                r.snap = saved_r
             outs.append(('raise', r, ex))
         if normal2 is None:
             return outs
